@@ -344,9 +344,10 @@ def _with_payload(facts, val):
     return None, None
 
 
-@rule('SER-ALLFIELDS', {
+@rule('SER-ALLFIELDS', dict({
     'C19': 'a field that is skipped or defaulted on the wire loses state across a restart',
-}, floor=25)
+}, **{p_: TYPE_PROP_WHY for ps_ in TYPE_PROPS.values() for p_ in ps_}), floor=25,
+    inst_filter={p_: (lambda i, p_=p_: p_ in type_props(i) or i in ('floor', 'anchor', 'internal')) for ps_ in TYPE_PROPS.values() for p_ in ps_})
 def ser_allfields(ctx):
     """Every field of every state/op type is written by the derived Serialize body (or is the transparent payload),
     none is skipped, and the derived Deserialize reports each as missing_field when absent."""
